@@ -3,7 +3,6 @@ package c15
 import (
 	"fmt"
 	"io"
-	"strings"
 	"sync/atomic"
 
 	"github.com/buildbarn/bb-storage/pkg/blobstore/buffer"
@@ -43,13 +42,16 @@ const (
 
 var faultNames = [...]string{"none", "readErr", "flip", "truncate", "append"}
 
-// Error classes an observer can tell apart (status code + marker text).
+// Error classes an observer can tell apart: the harness' own injected errors
+// (code + the harness' own text, which the buffer layer passes through) and
+// the INTERNAL code of integrity failures on backend-provided data. No class
+// depends on message text produced by /repo.
 const (
 	clsRead     = "read-error"
 	clsMismatch = "integrity"
 	clsErrBuf   = "error-buffer"
-	clsSize     = "size-limit"
 	clsTask     = "task" // followed by the task's node id
+	clsAny      = "any-error" // model only: the source is bad, which error says so is not stated
 )
 
 var (
@@ -85,11 +87,11 @@ func classify(err error) string {
 	case s.Code() == codes.Internal:
 		// buffer.BackendProvided reports every integrity failure as INTERNAL.
 		return clsMismatch
-	case s.Code() == codes.InvalidArgument && strings.Contains(s.Message(), "while a maximum of"):
-		return clsSize
-	case s.Code() == codes.InvalidArgument && strings.Contains(s.Message(), "Failed to unmarshal message"):
-		return "unmarshal"
 	}
+	// Everything else (size-limit rejections, unmarshal failures, wrapped
+	// writer errors, ...) is "other": the property does not say which error
+	// those situations produce, so the oracle never asks for a particular
+	// one; where such an error is legitimate it accepts any (expectation.any).
 	return "other:" + err.Error()
 }
 
@@ -237,8 +239,9 @@ func (s srcSpec) model() srcModel {
 			return srcModel{ok: false, errClass: clsRead}
 		}
 		if s.fault != fNone {
-			// Not a valid message: refused with the source's code.
-			return srcModel{ok: false, errClass: clsMismatch}
+			// Not a valid message: refused; with which error is not part
+			// of C15.
+			return srcModel{ok: false, errClass: clsAny}
 		}
 		return srcModel{declSize: int64(len(s.data)), served: s.data, ok: true}
 	}
